@@ -183,7 +183,15 @@ def c19(ctx, res):
                         "Maps are non-empty (the readers skip empty Maps by design); gob values are non-null scalars; the harness registers the container types with encoding/gob"]
 
 
+def c20(ctx, res):
+    ctx.gen_replay(res, "legacy", "MC_C20.tla", "MC_C20_quick.cfg" if ctx.quick else "MC_C20_thorough.cfg", procs=16)
+    res.assumptions += ["j2x/x2j wrappers add no state: the specification lists each with its documented composition (MxjLegacy!Bindings); the harness checks the list against the exported identifiers parsed from the packages' sources and calls every bound function",
+                        "the XML side is exercised with the Map's own XML encoding when it is a single readable document; JSON side: string scalars (identity round trip)",
+                        "ToJson / ToJsonIndent / XmlBufferToJson use json.Marshal (HTML-safe escapes): compared as JSON values"]
+
+
 PROPS = {
+    "C20": c20,
     "C19": c19,
     "C15": c15,
     "C17": c17,
